@@ -7,11 +7,12 @@ import lib_doc as L
 from framework import Result
 
 ID = 'C10'
-LEAN_TARGETS = ['TexSoupProofs.Properties.C10', 'TexSoupProofs.Properties.C10Grammar']
+LEAN_TARGETS = ['TexSoupProofs.Properties.C10', 'TexSoupProofs.Properties.C10Grammar', 'TexSoupProofs.Properties.AllInputs']
 THEOREMS = ['TexSoup.C10.' + n for n in (
     'comment_token', 'escaped_percent_token', 'percent_is_comment_char', 'comment_is_leaf', 'comment_closes_nothing',
     'comments_not_searchable')] + [
-    'TexSoup.C10G.payload_keeps_wf', 'TexSoup.C10G.tree_of_substituted', 'TexSoup.C10G.read_substituted', 'TexSoup.C10G.payload_irrelevant', 'TexSoup.C10G.tokOK_comment', 'TexSoup.C10G.parse_substituted', 'TexSoup.C10G.separated_marked', 'TexSoup.C10G.comment_payload_does_not_matter']
+    'TexSoup.C10G.payload_keeps_wf', 'TexSoup.C10G.tree_of_substituted', 'TexSoup.C10G.read_substituted', 'TexSoup.C10G.payload_irrelevant', 'TexSoup.C10G.tokOK_comment', 'TexSoup.C10G.parse_substituted', 'TexSoup.C10G.separated_marked', 'TexSoup.C10G.comment_payload_does_not_matter',
+    'TexSoup.C10.comment_payload_irrelevant_all', 'TexSoup.C10.verbOKS_of_tree', 'TexSoup.AllInputs.StrictInput.doc']
 PARTIAL = []
 TRUSTED = ['harness/props/c10.py (contexts, hostile payload alphabet, shape comparison)',
            'harness/gen_doc.py (documents with comments, normal form with blanked comment leaves)',
